@@ -94,25 +94,25 @@ claimed = {
 # As-built supplements (rounds 2 and 3): what was added to each check and how it decides.
 EVAL = "; decision-table evaluation of the go/ssa form (module helpers inlined, symbolic values and finite cells of the specification's partition; nothing of /repo is built or executed)"
 SUPP = {
- "C01": " As built (rounds 2-3): lower bounds on the interpreter's stacks are established, not assumed (SLOT-INV: inductive over all writers; extent of a run by push/deferred-pop discipline and call-graph reachability), the scanner buffer's class invariant 0<=pos<=used<=len(buf) is verified at every return and call of its writers (CLASS-INV), the one reviewed field assumption has its stores checked (FIELD-INV), constant ranges of counters (loop-carried and unexported fields) are derived inductively; a self-recursion over objects the input builds needs a visited set and a bound on free nesting, a loop driven by a stack of pending work needs a step budget or a visited set (LOOP-BUDGET) - bounded depth alone leaves fan-out^depth work.",
- "C02": " As built: operand counts decided by evaluating each operator with 0..k operands (stackunderflow below k, none at k, no panic); overflow of add/sub/mul/abs by evaluation on all boundary operand pairs; every error exit classified per incoming condition; every composite bound into the system dictionary freshly allocated per interpreter.",
- "C03": " As built: the loop operators, the deferred-dispatch rule, name look-up over dictionary stacks of depth 1-4 and bind on a model procedure (operator name, operator token, shadowed name, undefined, nested and self-containing procedure) are decided by evaluation; the dictionary stack is written only by begin/end/eexec and eexec restores it however the section ends.",
+ "C01": " As built (rounds 2-3): lower bounds on the interpreter's stacks are established, not assumed (SLOT-INV: inductive over all writers; extent of a run by push/deferred-pop discipline and call-graph reachability), the scanner buffer's class invariant 0<=pos<=used<=len(buf) is verified at every return and call of its writers (CLASS-INV), the one reviewed field assumption has its stores checked (FIELD-INV), constant ranges of counters (loop-carried and unexported fields) are derived inductively; a self-recursion over objects the input builds needs a visited set and a bound on free nesting, a loop driven by a stack of pending work needs a step budget or a visited set (LOOP-BUDGET) - bounded depth alone leaves fan-out^depth work. Facts cross calls: results of helpers (bounded by the constants, parameters and receiver fields the helper compares with), what an error-returning validator has checked when its error is nil, entry facts of helpers that are only called directly.",
+ "C02": " As built: operand counts decided by evaluating each operator with 0..k operands (stackunderflow below k, none at k, no panic); overflow of add/sub/mul/abs by evaluation on all boundary operand pairs; every error exit classified per incoming condition; every composite bound into the system dictionary freshly allocated per interpreter. Creating operators (matrix, array, string, dict, ], >>) place a composite allocated during the call; findresource decided over category x instance x key kind; where and the size operands of array/string/dict decided by evaluation.",
+ "C03": " As built: the loop operators, the deferred-dispatch rule, name look-up over dictionary stacks of depth 1-4 and bind on a model procedure (operator name, operator token, shadowed name, undefined, nested and self-containing procedure) are decided by evaluation; the dictionary stack is written only by begin/end/eexec and eexec restores it however the section ends. if/ifelse decided by evaluation for both values of the operand and both outcomes of the run; bind also on shadowed, userdict-only and undefined operator tokens.",
  "C04": " As built: the scanner is evaluated on the SSA form over the PLRM's cells (all bytes, every escape, CR/LF/backslash sequences up to length 3, number spellings and number look-alikes, ASCII85 groups, DSC prologues under LF/CR/CRLF) with only the input source modelled; outcomes are compared with a reference reading carried in the checker.",
  "C05": " As built: the eexec operator is a decision table (start succeeds/fails x section ends with nil/EOF/error x dictionary stack left +1/0/-1); the cipher steps are compared as normal forms over Z/2^16 wherever the state field is updated; the key is reset to 55665 at every section start.",
- "C06": " As built: callsubr on the decoder machine with distinct subroutines (index range, return frames by induction over the depth, both representations of the frame stack); every Subrs entry becomes subroutine i = its decryption with the font's lenIV (T1-SUBRS); the lenIV look-up is among the value sources of every decryption call (T1-LENIV); no decryption behind a fixed length threshold (T1-LENGUARD).",
- "C07": " As built: error names resolved through constants or variables; comparators evaluated (cmp.Compare/cmp.Or inlined) as total orders.",
+ "C06": " As built: callsubr on the decoder machine with distinct subroutines (index range, return frames by induction over the depth, both representations of the frame stack); every Subrs entry becomes subroutine i = its decryption with the font's lenIV (T1-SUBRS); the lenIV look-up is among the value sources of every decryption call (T1-LENIV); no decryption behind a fixed length threshold (T1-LENGUARD). Stem commands append edges that are the sum of one side-bearing component of their own direction and their operands (T1-STEMS); the eexec section-start table (white space, hex detection, lead bytes) is a C06 obligation too.",
+ "C07": " As built: error names resolved through constants or variables; comparators evaluated (cmp.Compare/cmp.Or inlined) as total orders. Only the key field of the two entries stands for the codes compared by a table's sort.",
  "C08": " As built: eexec writer stream (every byte of a Write reaches the output once, in order, for sizes around the buffer size), template data = font fields for generic and zero values (W-DATAFIELDS), every printed float parses back to itself (W-NUMEXACT), glyph names that the template executes inside CharStrings are refused by both writers (W-SHADOW), position tracking of the path encoder.",
  "C09": " As built: every element of the written date layout reads back what it prints (no zone abbreviation); template functions classified by evaluation on line ends, parentheses, % and blanks; closepath appends exactly one ClosePath under every decoder state; reader key table also from SSA value flow; exact number printing.",
- "C10": " As built: every string field written under a key the reader accepts is evaluated write->read over all bytes in five contexts (CL-STRINGS); no float32 or reduced-precision formatting on the write path (CL-ROUNDING); the fraction encoder is a projection (NUM-FRAC).",
- "C11": " As built: rules range over the interpreter core (executeOne and the functions on a static call cycle through it), so the counter, gate and stack test may live in any member; a successful step is counted and limited or only collects into an open procedure body (path rules L1-COUNTED, L4).",
+ "C10": " As built: every string field written under a key the reader accepts is evaluated write->read over all bytes in five contexts (CL-STRINGS); no float32 or reduced-precision formatting on the write path (CL-ROUNDING); the fraction encoder is a projection (NUM-FRAC). The name serialiser is evaluated on multi-byte names: regularity is a property of bytes (LEX-NAME).",
+ "C11": " As built: rules range over the interpreter core (executeOne and the functions on a static call cycle through it), so the counter, gate and stack test may live in any member; a successful step is counted and limited or only collects into an open procedure body (path rules L1-COUNTED, L4). Size bounds and their error names are followed through validators whose result is tested (L6-SIZE).",
  "C12": " As built: a module Read that is called once and trusted to fill the buffer must fill it whenever its error may be nil (DLV-FULLREAD); the sticky read error is consulted only after a short look-ahead.",
  "C13": " As built: no path on which an I/O error is never consulted reaches a nil return; every access to a scanner look-ahead result is covered by a length test (IO-SHORTPEEK); range-over-func bodies followed through their lowering.",
  "C14": " As built: control states found by role and derived by evaluation (header state, segment states, pending states); header/read-error/leftover/fill rules stated on those states and on evaluated cells; nibble encoder is whatever the binary state uses, checked on 0..15.",
- "C15": " As built: every writer line instantiated with representative values (three sign cells, symbolic numbers, free text with inner blanks and tabs, layout variants) must leave the value in the field it came from; nothing the writer emits is filtered by a condition on other data (AFM-COMPLETE); Write has no write effect on its receiver (AFM-READONLY).",
+ "C15": " As built: every writer line instantiated with representative values (three sign cells, symbolic numbers, free text with inner blanks and tabs, layout variants) must leave the value in the field it came from; nothing the writer emits is filtered by a condition on other data (AFM-COMPLETE); Write has no write effect on its receiver (AFM-READONLY). Tables of (label, destination) pairs in the reader are evaluated as values.",
  "C16": " As built: table parsers found by role and evaluated on every line of the files they open; IsValid/ToUnicode/FromUnicode grammar cells by evaluation; the two deliberate glyph-list fix-ups (Tcommaaccent, tcommaaccent) are recorded as known findings.",
- "C17": " As built: a sort is recognised by what is called and its comparison evaluated as a total order on the elements themselves; slices derived from an unordered slice inherit its obligation; no serialiser or query writes memory reachable from its receiver (DET-INPUT).",
+ "C17": " As built: a sort is recognised by what is called and its comparison evaluated as a total order on the elements themselves; slices derived from an unordered slice inherit its obligation; no serialiser or query writes memory reachable from its receiver (DET-INPUT). Comparators bound to local names are resolved; `if c { A; continue }; B` is read as if/else.",
  "C18": " As built: sync.OnceValue/Once publication disciplines; no value of a mutex-carrying struct outside the memory it was constructed in; shallow clones of shared containers do not escape.",
- "C19": " As built: GlyphList/NumGlyphs evaluated on five model fonts x two map delivery orders; font bounding box stated as accumulator value after one iteration for the four cells (accumulator empty x glyph box zero), boxes from the variant's own function.",
+ "C19": " As built: GlyphList/NumGlyphs evaluated on five model fonts x two map delivery orders; font bounding box stated as accumulator value after one iteration for the four cells (accumulator empty x glyph box zero), boxes from the variant's own function. Unknown glyph gives the zero rectangle in two worlds (no glyph present; only the asked one missing).",
  "C20": " As built: encoder and decoder evaluated on the SSA form (helpers inlined) against the number grammar; the tracked position is whatever state the encoder loop carries from one pass to the next (header values or cells), chosen once for all command kinds.",
 }
 for k in claimed:
